@@ -26,6 +26,8 @@ def shapes(quick):
         for n in lens:
             if s + n <= (1 << 32):            # an image cannot extend beyond the 32-bit address space
                 out.append([(s, n)])
+    out.append([(0x1000, 65536 + 32)])          # a run longer than one WDC record / one 64 KiB page
+    out.append([(0xfff0, 65536 + 16)])
     pl = [1, 17, 256] if not quick else [1, 17]
     ps = starts if not quick else starts[::2]
     for (a, b) in itertools.combinations(sorted(set(ps)), 2):
